@@ -27,7 +27,7 @@ def intDenoted : JV → Option Int
 /-- **int_accepts_iff.** A JSON value is accepted at an `Int` position exactly when it denotes an integer — a JSON integer,
     a boolean (Python: `bool ⊂ int`), a float whose double is integral (`1.0`, `1e3`), a string that `int(s, 10)` reads or
     whose `float(s)` is integral — and that integer lies in the closed signed 32-bit interval. Arrays, objects, non-integral
-    and non-finite numbers, other strings are refused (`int(inf)` escapes as OverflowError: not accepted either). -/
+    and non-finite numbers (`1e999`, NaN: fix A6), other strings are REFUSED (see `coerceInt_never_raises`). -/
 theorem int_accepts_iff (v : JV) : (∃ pv, coerceInt v = .ok pv) ↔ ∃ k, intDenoted v = some k ∧ InRange32 k := by
   have key : ∀ (k : Int) (r : PV), (∃ pv, rangeChecked k r = .ok pv) ↔ InRange32 k := by
     intro k r
@@ -70,7 +70,7 @@ theorem float_accepts_iff (v : JV) :
     (∃ pv, coerceFloat v = .ok pv) ↔
       match v with
       | .bool _ => True
-      | .int _ => True
+      | .int n => intFitsDouble n = true           -- an integer too large for a double (≥ 2^1024 − 2^970) is refused (fix A6)
       | .float t => ∃ neg m e, pyFloat t = some (.finite neg m e)
       | .str s => s ≠ "" ∧ ∃ neg m e, pyFloat s = some (.finite neg m e)
       | _ => False := by
@@ -89,7 +89,9 @@ theorem float_accepts_iff (v : JV) :
   | list l => simp [coerceFloat]
   | obj kvs => simp [coerceFloat]
   | bool b => simp [coerceFloat, floatChecked_finite]
-  | int n => simp [coerceFloat, floatChecked_finite]
+  | int n =>
+    have hover : Generated.Scalars.floatCatchesOverflow = true := coerceInt_branches_spec.2
+    cases hf : intFitsDouble n <;> simp [coerceFloat, floatChecked_finite, hf, hover]
   | float t =>
     simp only [coerceFloat]
     cases hp : pyFloat t with
@@ -105,6 +107,29 @@ theorem float_accepts_iff (v : JV) :
       | none => simp [hs]
       | some d => simp only []; rw [key]; simp [hs]
 
+/-- **the built-in scalars never raise.** Whatever the JSON value (±inf, NaN, integers of any size, any string, arrays,
+    objects), `coerce_int`, `coerce_float`, `_parse_string`, `_parse_bool`, `_parse_id` either return a value or raise the
+    `ValueError` / `TypeError` that `ScalarType.parse` turns into a rejection — no other exception (fix A6: `int(inf)`,
+    `float(10**400)`). Stated about the branches re-extracted from scalars.py. -/
+theorem builtin_scalars_never_raise (v : JV) :
+    coerceInt v ≠ .error .internal ∧ coerceFloat v ≠ .error .internal ∧ parseString v ≠ .error .internal ∧
+    parseBool v ≠ .error .internal ∧ parseId v ≠ .error .internal := by
+  have hover : Generated.Scalars.floatCatchesOverflow = true := coerceInt_branches_spec.2
+  have hr : ∀ (k : Int) (r : PV), rangeChecked k r ≠ .error .internal := by
+    intro k r; unfold rangeChecked; split <;> simp
+  have hf : ∀ (c : FCls) (r : PV), floatChecked c r ≠ .error .internal := by
+    intro c r; unfold floatChecked; split <;> simp
+  refine ⟨?_, ?_, ?_, ?_, ?_⟩
+  · unfold coerceInt
+    repeat' split
+    all_goals first | exact hr _ _ | simp
+  · unfold coerceFloat
+    repeat' split
+    all_goals first | exact hf _ _ | simp [hover]
+  · cases v <;> simp [parseString]
+  · cases v <;> simp [parseBool]
+  · cases v <;> simp [parseId]
+
 /-! #### the table, evaluated by the kernel on the lexeme model (rows with long mantissas — `2147483647.0`, `1.0000000000000000001`,
      `1.7976931348623157e308`, `5e-324` — are checked against Python by the compiled `pynum` stream instead) -/
 
@@ -113,7 +138,7 @@ example : coerceInt (.float "1e+16") = .error .coercion := by rfl           -- i
 example : coerceInt (.float "1.5") = .error .coercion := by rfl
 example : coerceInt (.float "-0.0") = .ok (.int 0) := by rfl
 example : coerceInt (.float "nan") = .error .coercion := by rfl
-example : coerceInt (.float "inf") = .error .internal := by rfl             -- int(inf): OverflowError escapes
+example : coerceInt (.float "inf") = .error .coercion := by rfl             -- int(inf): OverflowError caught (fix A6)
 example : coerceInt (.bool true) = .ok (.bool true) := by rfl
 example : coerceInt (.str "12") = .ok (.int 12) := by rfl
 example : coerceInt (.str " 7 ") = .ok (.int 7) := by rfl
